@@ -23,9 +23,36 @@ pub struct Pong {
     value: u64,
 }
 
+/// requests with a value at or above HOLD stay inside their handler until the gate opens
+const HOLD: u64 = 500_000;
+
+#[derive(Clone, Default)]
+pub struct Gate {
+    entered: std::sync::Arc<std::sync::atomic::AtomicU64>,
+    open: std::sync::Arc<tokio::sync::watch::Sender<bool>>,
+}
+
+impl Gate {
+    fn new() -> Self {
+        let (tx, _) = tokio::sync::watch::channel(false);
+        Gate { entered: Default::default(), open: std::sync::Arc::new(tx) }
+    }
+    async fn pass(&self, value: u64) {
+        if value >= HOLD {
+            self.entered.fetch_add(1, std::sync::atomic::Ordering::SeqCst);
+            let mut rx = self.open.subscribe();
+            while !*rx.borrow() {
+                if rx.changed().await.is_err() {
+                    break;
+                }
+            }
+        }
+    }
+}
+
 macro_rules! service {
     ($name:ident, $tag:expr, [$($reg:ty),*]) => {
-        pub struct $name;
+        pub struct $name(pub Gate);
         impl RpcService for $name {
             fn register_handlers(registry: &mut ServiceRegistry<Self>) {
                 $(registry.add_handler::<$reg>();)*
@@ -35,14 +62,15 @@ macro_rules! service {
         impl Handler<Ping> for $name {
             type Reply = u64;
             async fn on_message(&self, msg: Request<Ping>) -> Result<Self::Reply, Status> {
-                Ok($tag * 1_000_000 + 100_000 + msg.value)
+                self.0.pass(msg.value).await;
+                Ok($tag * 1_000_000 + 100_000 + msg.value % HOLD)
             }
         }
         #[datacake_rpc::async_trait]
         impl Handler<Pong> for $name {
             type Reply = u64;
             async fn on_message(&self, msg: Request<Pong>) -> Result<Self::Reply, Status> {
-                Ok($tag * 1_000_000 + 200_000 + msg.value)
+                Ok($tag * 1_000_000 + 200_000 + msg.value % HOLD)
             }
         }
     };
@@ -174,16 +202,59 @@ async fn run_history(hi: usize, h: &Value) -> HistResult {
     let mut res = HistResult { probes: 0, served: 0, unknown: 0, violation: None, sample: Value::Null };
     let (server, addr) = listen_somewhere().await;
     let chan = Channel::connect(addr);
+    let gate = Gate::new();
+    let mut held: Vec<tokio::task::JoinHandle<bool>> = vec![];
     let steps = h["hist"].as_array().unwrap();
     let exps = h["exps"].as_array().unwrap();
     let mut observed_steps = vec![];
     for (i, st) in steps.iter().enumerate() {
         let (kind, svc) = (st[0].as_str().unwrap(), st[1].as_str().unwrap());
         match (kind, svc) {
-            ("add", "A") => server.add_service(SvcA),
-            ("add", "B") => server.add_service(SvcB),
-            ("add", "C") => server.add_service(SvcC),
+            ("add", "A") => server.add_service(SvcA(gate.clone())),
+            ("add", "B") => server.add_service(SvcB(gate.clone())),
+            ("add", "C") => server.add_service(SvcC(gate.clone())),
             ("remove", s) => server.remove_service(service_name(s)),
+            ("hold", s) => {
+                // a request on the SAME connection that stays inside its handler (if it is dispatched at all)
+                let before = gate.entered.load(std::sync::atomic::Ordering::SeqCst);
+                let chan2 = chan.clone();
+                let s2 = s.to_string();
+                let task = tokio::spawn(async move {
+                    let v = HOLD + 7;
+                    match s2.as_str() {
+                        "A" => RpcClient::<SvcA>::new(chan2).send(&Ping { value: v }).await.is_ok(),
+                        "B" => RpcClient::<SvcB>::new(chan2).send(&Ping { value: v }).await.is_ok(),
+                        _ => RpcClient::<SvcC>::new(chan2).send(&Ping { value: v }).await.is_ok(),
+                    }
+                });
+                // wait until the handler was entered or the request came back (refused)
+                let mut entered = false;
+                for _ in 0..2000 {
+                    if gate.entered.load(std::sync::atomic::Ordering::SeqCst) > before {
+                        entered = true;
+                        break;
+                    }
+                    if task.is_finished() {
+                        break;
+                    }
+                    tokio::time::sleep(std::time::Duration::from_micros(200)).await;
+                }
+                let expected_dispatch = i > 0 && exps[i - 1].as_array().unwrap().iter().any(|p| p[0] == s && p[1] == "Ping");
+                let expected_dispatch = if i == 0 { false } else { expected_dispatch };
+                if entered != expected_dispatch {
+                    res.violation = Some(json!({"property": "C13", "hist": h["hist"], "step": i + 1,
+                        "why": [format!("a request for service {s} arriving at step {} was {} although the service was {}",
+                                        i + 1, if entered { "dispatched" } else { "refused" }, if expected_dispatch { "registered" } else { "not registered" })]}));
+                }
+                held.push(task);
+            },
+            ("release", _) => {
+                let _ = gate.open.send(true);
+                for t in held.drain(..) {
+                    let _ = t.await;
+                }
+                let _ = gate.open.send(false);
+            },
             other => panic!("bad step {other:?}"),
         }
         let expected: BTreeSet<(String, String)> = exps[i]
@@ -214,6 +285,10 @@ async fn run_history(hi: usize, h: &Value) -> HistResult {
         }
     }
     res.sample = json!({"hist": h["hist"], "expected_served_after_each_step": h["exps"], "observed": observed_steps});
+    let _ = gate.open.send(true);
+    for t in held.drain(..) {
+        t.abort();
+    }
     server.shutdown();
     res
 }
